@@ -79,6 +79,60 @@ func stretchC01(r *Rng, p interface{}, kind int) {
 	}
 }
 
+// straddle lengthens the first string (or address) of the PDU so that a uniformly chosen
+// octet of the original frame lands on one of the decoder's 4096-octet refill boundaries:
+// every later field gets its turn at being cut by the refill.
+func straddle(r *Rng, p interface{}) {
+	_, err, w, panicked, _ := marshalRec(clonePDU(p))
+	if err != nil || panicked || len(w.calls) != 1 || len(w.calls[0]) < 18 {
+		return
+	}
+	l0 := len(w.calls[0])
+	boundary := r.Pick([]int{4096, 4096, 4096, 8192, 12288})
+	pos := 17 + r.Intn(l0-17)
+	n := boundary - pos + r.Pick([]int{-1, 0, 0, 0, 1})
+	if n <= 0 {
+		return
+	}
+	pad := make([]byte, n)
+	for j := range pad {
+		pad[j] = byte('a' + (j % 26))
+	}
+	v := reflect.ValueOf(p).Elem()
+	for i := 0; i < v.NumField(); i++ {
+		f := v.Field(i)
+		if f.Kind() == reflect.String {
+			f.SetString(f.String() + string(pad))
+			return
+		}
+		if a, ok := f.Interface().(pdu.Address); ok {
+			a.No += string(pad)
+			f.Set(reflect.ValueOf(a))
+			return
+		}
+	}
+}
+
+// fillTo adds one TLV sized so that the whole frame has exactly [target] octets.
+func fillTo(r *Rng, p interface{}, target int) {
+	v := reflect.ValueOf(p).Elem()
+	for i := 0; i < v.NumField(); i++ {
+		if _, ok := v.Field(i).Interface().(pdu.Tags); ok {
+			v.Field(i).Set(reflect.ValueOf(pdu.Tags{0x0005: {1}}))
+			_, err, w, panicked, _ := marshalRec(clonePDU(p))
+			if err != nil || panicked || len(w.calls) != 1 {
+				return
+			}
+			size := target - len(w.calls[0]) - 4
+			if size < 1 || size > 65534 {
+				return
+			}
+			v.Field(i).Set(reflect.ValueOf(pdu.Tags{0x0005: {1}, 0x0424: genBytes(r, size)}))
+			return
+		}
+	}
+}
+
 func corrC01(r *Run) {
 	r.Import("Model.PduRun")
 	r.PerShard(60)
@@ -88,15 +142,20 @@ func corrC01(r *Run) {
 	ts := pduTypes()
 	n := r.N(30, 800)
 	caseBudget := r.N(330, 6000)
+	bigBudget := r.N(14, 400) // frames of several KiB are slow to parse inside coqc: a fixed number per run
 	for _, t := range ts {
 		for i := 0; i < n; i++ {
 			p := genPDU(r.Rng, t, modeDomain)
 			switch {
-			case i%10 == 7:
-				stretchC01(r.Rng, p, 0)
+			case i%10 == 6 || i%10 == 7 || i%10 == 3:
+				straddle(r.Rng, p)
 			case i%10 == 8:
 				stretchC01(r.Rng, p, 1)
 			case i%30 == 9:
+				stretchC01(r.Rng, p, 0)
+			case i%30 == 19:
+				fillTo(r.Rng, p, r.Rng.Pick([]int{65536, 65536, 65535, 65534, 65000}))
+			case i%30 == 29:
 				stretchC01(r.Rng, p, 2)
 			}
 			statusCase := i%9 == 5
@@ -172,7 +231,10 @@ func corrC01(r *Run) {
 				}
 			}
 			// model: Marshal produces this frame; ReadPDU under this schedule gives this observation
-			if caseBudget > 0 && len(frame) < 20000 {
+			if caseBudget > 0 && (len(frame) < 2500 || (len(frame) < 20000 && bigBudget > 0)) {
+				if len(frame) >= 2500 {
+					bigBudget--
+				}
 				caseBudget--
 				r.Case(fmt.Sprintf("marshal+readpdu %s %.200s", t.Name, term),
 					fmt.Sprintf("beq_obytes (marshal %s %s) (Ok %s) && beq_read (run_read %s %s) %s",
